@@ -589,4 +589,23 @@ theorem unbacked_genesis_rejected (nd : Nat) (tunnels : List (Nat × List Nat)) 
 example : genesisDepositsOk 2 [(1, [100, 0]), (2, [0, 0])] [(1, 0, [60, 0]), (1, 1, [40, 0])] = true := by decide
 example : genesisDepositsOk 2 [(1, [100, 0])] [] = false := by decide
 
+/-- PROPERTY (an imported genesis is escrowed): `InitGenesis` accepts only when the tunnel module account holds, per denom,
+    exactly what the genesis says it escrows (deposit records + fees); with even one unit missing anywhere — in particular
+    with an EMPTY module account and a positive escrow — the import is refused -/
+theorem imported_genesis_is_escrowed (escrowed balance : List Nat) :
+    importBacked escrowed balance = true ↔ escrowed = balance := by
+  unfold importBacked; exact beq_iff_eq
+
+theorem empty_account_cannot_back_deposits (escrowed : List Nat) (k : Nat) (hpos : 0 < escrowed.getD k 0) :
+    importBacked escrowed (List.replicate escrowed.length 0) = false := by
+  cases h : importBacked escrowed (List.replicate escrowed.length 0) with
+  | false => rfl
+  | true =>
+    have e := (imported_genesis_is_escrowed _ _).mp h
+    rw [e] at hpos
+    simp [List.getD_eq_getElem?_getD, List.getElem?_replicate] at hpos
+    split at hpos <;> simp at hpos
+
+example : importBacked [100, 0] [100, 0] = true ∧ importBacked [100, 0] [0, 0] = false ∧ importBacked [100, 0] [101, 0] = false := by decide
+
 end C17
